@@ -624,6 +624,13 @@ class Body:
                 name = fn.get('r') or fn.get('fn') or ''
                 if d and len(d) == 1:
                     f.pop(d[0], None)
+                    if 'from_residual' in name or 'from_residual' in fn.get('fn', ''):
+                        # `return Err(e.into())` of a `?`: always the failure variant
+                        dty = self.local_ty(d[0])
+                        if dty.startswith('std::result::Result'):
+                            f[d[0]] = 1
+                        elif dty.startswith('std::option::Option'):
+                            f[d[0]] = 0
                     a0 = t.get('args', [None])[0] if t.get('args') else None
                     if a0 is not None and 'p' in a0 and len(a0['p']) == 1 and a0['p'][0] in f and isinstance(f[a0['p'][0]], int):
                         if name.endswith('Try>::branch') or fn.get('fn', '').endswith('Try::branch'):
